@@ -9,6 +9,9 @@
 (*   rscan {w, done, lines}       the same for a text of tens of thousands  *)
 (*                                of graphemes, run-length encoded: the     *)
 (*                                text is reset.rinp, judged by WrapRelRL   *)
+(*   rdraw {w, sw, sh, rows}      surface the widget drew for such a text,  *)
+(*                                cell by cell; judged by WrapRelRL!DrawOK  *)
+(*                                against the lines of the rscan before it  *)
 (* Every scan is judged by WrapRel!Why, every draw by WrapRel!DrawOK        *)
 (* against the lines of the scan event just before it (skipped when that    *)
 (* scan was rejected).                                                      *)
@@ -33,8 +36,8 @@ Next ==
   /\ LET e == Trace[l] IN
      IF e.ev = "reset" THEN
         /\ inp' = e.inp /\ rinp' = e.rinp /\ cr' = e.carriers /\ lines' = <<>> /\ failed' = FALSE
-     ELSE IF e.ev = "rscan" THEN     \* a giant text: every width is judged on its own, nothing is drawn
-        /\ UNCHANGED <<inp, rinp, cr>> /\ lines' = <<>>
+     ELSE IF e.ev = "rscan" THEN     \* a giant text: every width is judged on its own
+        /\ UNCHANGED <<inp, rinp, cr>> /\ lines' = e.lines
         /\ LET why0 == RL!Why0(rinp, e.w, e.done, e.lines)
                why == IF why0 = "letters" /\ RL!GluedRuns(rinp, e.lines, e.w) THEN "letters-glued-prefix" ELSE why0
            IN IF why = "" THEN failed' = FALSE ELSE Reject(e, why \o ":giant")
@@ -45,12 +48,17 @@ Next ==
                \* a run of letters was split right behind something glued to it: told apart from other splits
                why == IF why0 = "conserve" /\ cr # <<>> /\ ConservedCore(inp, e.lines, cr) THEN "conserve-carrier-space-cut"
                       ELSE IF why0 = "letters" /\ GluedRuns(inp, e.lines, e.w) THEN "letters-glued-prefix"
+                      \* a line runs across a terminator that it holds: told apart from other hard-break rejections
+                      ELSE IF why0 = "hardbreak" /\ TermInside(inp, e.lines) THEN "hardbreak-terminator-inside-line"
                       ELSE why0
            IN IF why = "" THEN failed' = FALSE ELSE Reject(e, why)
      ELSE IF failed THEN UNCHANGED <<inp, rinp, cr, lines, failed>>
      ELSE IF e.ev = "draw" THEN
         /\ UNCHANGED <<inp, rinp, cr, lines>>
         /\ IF DrawOK(lines, e.rows, e.sw, e.sh) THEN UNCHANGED failed ELSE Reject(e, "draw")
+     ELSE IF e.ev = "rdraw" THEN
+        /\ UNCHANGED <<inp, rinp, cr, lines>>
+        /\ IF RL!DrawOK(lines, e.rows, e.sw, e.sh) THEN UNCHANGED failed ELSE Reject(e, "draw:giant")
      ELSE  \* panic, hang, anything else the oracle has no step for
         /\ UNCHANGED <<inp, rinp, cr, lines>>
         /\ Reject(e, e.ev \o ":" \o e.in)
